@@ -57,6 +57,16 @@ pub const BODIES: &[&str] = &[
     "Array<X>",
     "{ [key in string]?: Y }",
     "[number, string]",
+    // what `#[ts(type = "..")]` fields can bring in: arrow types (a `>` without `<`), generic
+    // argument lists, brackets and comment openers inside string literals - each followed by a
+    // documented field, which starts a new line with `/**`
+    // unmatched brackets inside field docs
+    "{ \n/**\n * 1) first item :)\n */\na: number, \n/**\n * second ] }\n */\nb: number, \n/**\n * third\n */\nc: X, }",
+    "{ \n/**\n * opens ( [ {\n */\na: number, \n/**\n * second\n */\nb: number, }",
+    "{ cb: (n: number) => void, \n/**\n * after the arrow\n */\nb: number, }",
+    "{ \n/**\n * one\n */\na: Array<Map<string, X>>, \n/**\n * two\n */\nb: (x: X) => (y: Y) => void, \n/**\n * three\n */\nc: number, }",
+    "{ s: \"a } b\" | \"{\" | \"(\", \n/**\n * after brackets in strings\n */\nb: number, }",
+    "{ a: \"no /* comment\", \n/**\n * doc\n */\nb: X extends Array<infer U> ? U : \"<\", \n/**\n * last\n */\nc: number, }",
 ];
 // bodies that only go in when the corresponding known finding is not excluded
 pub const BODY_EXPORT_WORD: &str = "{ \n/**\n * says export type Zzz here\n */\na: number, }";
